@@ -181,23 +181,28 @@ def run(ctx):
                    "in the file (their contract is what C04.holds checks)",
                    "datetime.isoformat/fromisoformat and the utf-8 codec are parameters of the model (identity on "
                    "the harness' tokens); their round trip is what the comparison of tokens monitors"]
-    os.makedirs(TMP, exist_ok=True)
+    widx, wcount = getattr(ctx, "worker", (0, 1))
+    tmp = os.path.join(TMP, str(os.getpid()))          # one directory per (worker) process
+    os.makedirs(tmp, exist_ok=True)
     try:
-        for case in CORPUS:
-            check_case(ctx, case)
-            ctx.count("corpus")
-        n = 380 if ctx.quick() else 6000
+        if widx == 0:
+            for case in CORPUS:
+                check_case(ctx, case, tmp)
+                ctx.count("corpus")
+        n = 380 if ctx.quick() else 6000 // wcount
         for _ in range(n):
-            check_case(ctx, c04.gen_case(ctx.rng, ctx.quick(), empty_axes=(ctx.rng.random() < 0.3)))
-        edge_stream(ctx)
+            check_case(ctx, c04.gen_case(ctx.rng, ctx.quick(), empty_axes=(ctx.rng.random() < 0.3)), tmp)
+        if widx == 0:
+            edge_stream(ctx, tmp)
     finally:
-        shutil.rmtree(TMP, ignore_errors=True)
+        shutil.rmtree(tmp, ignore_errors=True)
 
 
 def replay(ctx, rec):
-    os.makedirs(TMP, exist_ok=True)
+    tmp = os.path.join(TMP, str(os.getpid()))
+    os.makedirs(tmp, exist_ok=True)
     try:
         case = rec["case"]["case"] if "case" in rec.get("case", {}) else rec["case"]
-        check_case(ctx, case)
+        check_case(ctx, case, tmp)
     finally:
-        shutil.rmtree(TMP, ignore_errors=True)
+        shutil.rmtree(tmp, ignore_errors=True)
